@@ -950,7 +950,11 @@ class RpcServer:
             # unrecognised member of a dictionary-encoded enum reaches
             # ``base[value]`` and raises KeyError.
             try:
-                _deserialize_params(kwargs, info.param_types, self._ipc_validation)
+                # Shape and nullness first: they depend only on the request's
+                # column names, Arrow types and which cells are null, none of
+                # which deserialization changes.  Converting values before the
+                # shape is known to match would let a conversion failure on one
+                # column mask the mismatch of another.
                 _validate_call_signature(
                     info.name,
                     kwargs,
@@ -959,6 +963,7 @@ class RpcServer:
                     info.params_schema,
                 )
                 _validate_params(info.name, kwargs, info.param_types)
+                _deserialize_params(kwargs, info.param_types, self._ipc_validation)
             except Exception as exc:
                 err_schema = info.result_schema if info.method_type == MethodType.UNARY else _EMPTY_SCHEMA
                 _write_error_stream(transport.writer, err_schema, exc, server_id=self._server_id)
